@@ -6,6 +6,7 @@ pub mod ledger;
 pub mod memsrc;
 pub mod procfs;
 pub mod props;
+pub mod trees;
 pub mod world;
 
 pub use engine::{Outcome, Plan, Prop, Tier};
